@@ -163,11 +163,11 @@ theorem sim_exit (m : Option Nat) (hst : Stat K k sub) (hd : Dyn K k sub s) (hl 
   cases m with
   | none =>
     simp only [run, sem, stop_false_of_exit hx, Rel, Post, builtinExit, hst.kt]
-    refine ⟨rfl, hl.1, ?_, rfl, rfl, hd.csub, hd.ht, hd.cerr, hp⟩
+    refine ⟨rfl, hl.1, ?_, rfl, rfl, hd.csub, hd.ht, hd.cerr, hp, rfl⟩
     simp [absEnv]
   | some v =>
     simp only [run, sem, stop_false_of_exit hx, Rel, Post, builtinExit]
-    refine ⟨rfl, rfl, ?_, rfl, rfl, hd.csub, hd.ht, hd.cerr, hp⟩
+    refine ⟨rfl, rfl, ?_, rfl, rfl, hd.csub, hd.ht, hd.cerr, hp, rfl⟩
     simp [uint8, status256]
 
 theorem sim_ret (m : Option Nat) (hst : Stat K k sub) (hs : supCmd K (.ret m) = true)
@@ -175,7 +175,7 @@ theorem sim_ret (m : Option Nat) (hst : Stat K k sub) (hs : supCmd K (.ret m) = 
     Rel (Post K k sub False q s) (run (n+1) (.cmd (.ret m)) s)
       (sem (n+1) k (.cmd (.ret m)) (absEnv s)) := by
   simp [supCmd] at hs
-  obtain ⟨⟨hm, hfn⟩, hfor⟩ := hs
+  obtain ⟨hm, hfn⟩ := hs
   cases m with
   | none => simp at hm
   | some v =>
@@ -189,7 +189,7 @@ theorem sim_ret (m : Option Nat) (hst : Stat K k sub) (hs : supCmd K (.ret m) = 
       simp [sem, h2]
     rw [hrun, hsem]
     simp only [Rel, Post]
-    refine ⟨?_, hd.congr rfl rfl rfl rfl rfl rfl rfl rfl, ⟨rfl, rfl, rfl⟩, hp, by triv, hfn, hfor, ?_, ?_⟩
+    refine ⟨?_, hd.congr rfl rfl rfl rfl rfl rfl rfl rfl, ⟨rfl, rfl, rfl⟩, hp, by triv, hfn, ?_, ?_⟩
     · simp [absEnv, absEnvC, uint8, status256]
     · intro h; exact h.elim
     · intro h; simp at h
